@@ -22,8 +22,9 @@ Init == \/ c \in HalfCases \cup ThreeHalvesCases
         \/ \E p \in Params \cup {[v |-> v, alpha |-> a, l |-> l] : v \in {<<1, 64>>, R(64)}, a \in {1, 2, 64}, l \in {<<1, 64>>, R(64)}}
                         \cup {[v |-> R(1), alpha |-> 64, l |-> R(1)], [v |-> R(3), alpha |-> 16, l |-> <<1, 2>>]} :
               c = [fam |-> "scalar", p |-> p, X |-> <<>>]      \* incl. the corners of the parameter box (1e-2, 1e2)
-        \* non-integer mixture parameters for the relational checks (axioms; matrix form = scalar form)
-        \/ \E a \in {<<3, 2>>, <<5, 2>>, <<7, 10>>, <<19, 8>>}, l \in {R(1), <<1, 2>>} : c = [fam |-> "scalar", ralpha |-> a, p |-> [v |-> R(2), alpha |-> 0, l |-> l], X |-> <<>>]
+        \* non-integer mixture parameters for the relational checks (axioms; matrix form = scalar form), down to the corner where both the
+        \* mixture parameter and the length scale are at the small end of the box (alpha l^2 of the order of 1e-6)
+        \/ \E a \in {<<3, 2>>, <<5, 2>>, <<7, 10>>, <<19, 8>>, <<1, 64>>, <<1, 100>>}, l \in {R(1), <<1, 2>>, <<1, 64>>} : c = [fam |-> "scalar", ralpha |-> a, p |-> [v |-> R(2), alpha |-> 0, l |-> l], X |-> <<>>]
 Next == UNCHANGED c
 Spec == Init /\ [][Next]_c
 Half == "half" \in DOMAIN c \/ "threehalves" \in DOMAIN c
